@@ -1,8 +1,8 @@
 #!/usr/bin/env python3
 """Generate /verif/MANIFEST.json from checks.json (single source of truth for what is claimed)."""
-import json, os
+import json, os, glob
 V = os.path.dirname(os.path.dirname(os.path.abspath(__file__)))
-checks = json.load(open(os.path.join(V, "checks.json")))
+checks = {os.path.basename(p)[:-5]: json.load(open(p)) for p in sorted(glob.glob(os.path.join(V, "checks.d", "*.json")))}
 props = [json.loads(l) for l in open(os.path.join(V, "properties.jsonl"))]
 na_reasons = {}
 p = os.path.join(V, "not_applicable.json")
